@@ -9,6 +9,9 @@ func InstallSeqHook(w *World) {
 		if point == "commit.after" && !w.Bulk {
 			w.T.Log(Ev{"e": "after", "t": w.T.Actor()})
 		}
+		if point == "key.checked" {
+			w.KeyHook()
+		}
 	}
 }
 
